@@ -400,7 +400,8 @@ def rule_cols(ctx):
         wbody, item = ah, 'each(a1)'
         fs0 = mir.fmt_sites(ah)
         in_loop = len(fs0) == 1 and ah.loop_depth(fs0[0].cs.bb) == 1 and [canon(x) for x in util.loop_bounds(ah, fs0[0].cs.bb) if x is not None] == ['a1']
-        ctx.check('cols', 'hex:fold-over-all-bytes', bool(in_loop) and re.match(r'^(with_capacity\(.*\)|new\(\))$', rc) is not None, ah,
+        # the accumulator: a String created empty (a fold's accumulator is loop-carried: phi(loopvar | <init>))
+        ctx.check('cols', 'hex:fold-over-all-bytes', bool(in_loop) and re.match(r'^(phi\(loopvar \| )?(with_capacity\(.*\)|new\(\))\)?$', rc) is not None, ah,
                   'loop over the whole slice appending to the returned String (%s)' % rc)
         acc = rc
         acc_ok = True
@@ -431,7 +432,7 @@ def rule_rows(ctx):
     nb = prog.one('<callbacks::csvdump::CsvDump as callbacks::Callback>::new')
     ctx.touch(nb)
     ret = canon(nb.ret_expr())
-    wfile = dict(re.findall(r'(\w+_writer): create_writer\(\d+, join\(unwrap\(get_one\(a1, "dump-folder"\)\), "(\w+)\.csv\.tmp"\)\)\?', ret))
+    wfile = dict(re.findall(r'(\w+_writer): create_writer\(\d+, join\(get_one\(a1, "dump-folder"\)\?, "(\w+)\.csv\.tmp"\)\)\?', ret))
     ctx.check('rows', 'writer-file-map', wfile == {'block_writer': 'blocks', 'tx_writer': 'transactions', 'txin_writer': 'tx_in', 'txout_writer': 'tx_out'}, nb, 'writers: %s' % wfile)
     tx = 'each(a2.txs)'
     bh = 'a2.header.hash'
